@@ -1,7 +1,7 @@
 #!/usr/bin/env python3
 import subprocess, sys, os, json, re, time
 WT=os.environ.get('C04_WT','/var/tmp/wt-c04u')
-LOGDIR=os.environ.get('C04_MUTLOG','/var/tmp/c04r4/mut')
+LOGDIR=os.environ.get('C04_MUTLOG','/var/tmp/c04r6/mut')
 os.makedirs(LOGDIR, exist_ok=True)
 ENV=dict(os.environ, GOFLAGS='-mod=mod', GOPROXY='off', GOSUMDB='off', GOTOOLCHAIN='local')
 def sh(cmd, cwd=None, timeout=3000, env=ENV):
@@ -541,7 +541,81 @@ M.update({
  # ... and only for files whose type viper derives from the extension (not for a file without one)
  'r16-no-default-for-a-config-without-extension': [(C,'if pools, ok := v.Get("pools").([]any); ok {','if pools, ok := v.Get("pools").([]any); ok && (useStdinConfig || filepath.Ext(v.ConfigFileUsed()) != "") {')],
 })
-PK={PL:'./core/plugin/...',W:'./core/coreutil/...',I:'./core/engine/...',C:'./cli/...',S:'./core/aggregator/...',E:'./core/engine/...',P:'./core/aggregator/...'}
+
+# ---- round 6: code the anchored files depend on (core/schedule: what the tokens ARE), judged against the configured profile
+DA='core/schedule/do_at.go'; CO='core/schedule/const.go'; LI='core/schedule/line.go'; ST='core/schedule/step.go'
+M.update({
+ # "tidy" token times: const tokens truncated to whole milliseconds (up to 1 ms before the profile's instant)
+ 't01-const-tokens-truncated-to-ms': [(CO,'		return time.Duration(float64(i) * billionDivOps)\n','		return time.Duration(float64(i)*billionDivOps) / time.Millisecond * time.Millisecond\n')],
+ # an exhausted leaf reports the time of its LAST operation instead of start + duration: the next part of a composite starts early
+ 't02-finish-time-is-last-token': [(DA,'		return s.start.Add(s.duration), false','		return s.start.Add(s.doAt(s.n - 1)), false')],
+ # the start instant read into a local BEFORE the lazy start has run (hoisted read): the very first caller answers from the zero time
+ 't06-start-read-before-the-once': [(DA,"""	s.startOnce.Do(func() {
+		// No allocations here due to benchmark.
+		s.MarkStarted()
+		s.start = time.Now()
+	})
+	i := s.i.Inc() - 1
+	if i >= s.n {
+		return s.start.Add(s.duration), false
+	}
+	return s.start.Add(s.doAt(i)), true""","""	start := s.start
+	s.startOnce.Do(func() {
+		// No allocations here due to benchmark.
+		s.MarkStarted()
+		s.start = time.Now()
+	})
+	i := s.i.Inc() - 1
+	if i >= s.n {
+		return start.Add(s.duration), false
+	}
+	return start.Add(s.doAt(i)), true""")],
+ # step: the last level is dropped when `to` is hit exactly (boundary of a loop)
+ 't09-step-last-level-dropped': [(ST,'for i := from; i <= to; i += float64(step) {','for i := from; i < to; i += float64(step) {')],
+ # index drawn by load-then-increment instead of one atomic increment: two instances can draw the same operation (interleaving)
+ 't22-index-load-then-inc': [(DA,'	i := s.i.Inc() - 1\n','	i := s.i.Load()\n	s.i.Inc()\n')],
+ # line: "avoid a huge slope": a line shorter than a second gets the slope of a one-second line (unusual but valid input)
+ 't23-line-duration-at-least-a-second': [(LI,"""	a := (to - from) / (float64(duration) / 1e9)
+	b := from
+	xn := float64(duration) / 1e9""","""	xn := float64(duration) / 1e9
+	if xn < 1.5 {
+		xn = 1.5 // avoid a huge slope
+	}
+	a := (to - from) / xn
+	b := from""")],
+ # waiter.go: a wait below 100us is not slept but reported through a new exported flag "for the gun to take care of" (nobody does)
+ 't24-short-wait-delegated': [(W,"""	w.overdueDuration = 0
+	// Lazy init.""","""	w.overdueDuration = 0
+	if waitFor < 100*time.Microsecond {
+		w.Short = true
+		return true
+	}
+	w.Short = false
+	// Lazy init."""),(W,"""	lastNow time.Time""","""	lastNow time.Time
+	// Short: the last Wait returned up to 100us before the token time.
+	Short bool""")],
+ # harmless: the lazy start stores the instant BEFORE raising the flag (still inside the Once)
+ 'h14-harmless-start-stored-before-flag': [(DA,"""		s.MarkStarted()
+		s.start = time.Now()""","""		s.start = time.Now()
+		s.MarkStarted()""")],
+ # harmless: early return for the common case in Next
+ 'h15-harmless-next-early-return': [(DA,"""	if i >= s.n {
+		return s.start.Add(s.duration), false
+	}
+	return s.start.Add(s.doAt(i)), true""","""	if i < s.n {
+		return s.start.Add(s.doAt(i)), true
+	}
+	return s.start.Add(s.duration), false""")],
+ # harmless: NewLine computes the length once and uses it for the slope
+ 'h16-harmless-line-length-first': [(LI,"""	a := (to - from) / (float64(duration) / 1e9)
+	b := from
+	xn := float64(duration) / 1e9""","""	xn := float64(duration) / 1e9
+	a := (to - from) / xn
+	b := from""")],
+ # harmless: IsSlowDown's comparison written the other way round
+ 'h17-harmless-isslowdown-flipped-comparison': [(W,'return w.overdueDuration >= MaxOverdueDuration','return MaxOverdueDuration <= w.overdueDuration')],
+})
+PK={DA:'./core/schedule/...',CO:'./core/schedule/...',LI:'./core/schedule/...',ST:'./core/schedule/...',PL:'./core/plugin/...',W:'./core/coreutil/...',I:'./core/engine/...',C:'./cli/...',S:'./core/aggregator/...',E:'./core/engine/...',P:'./core/aggregator/...'}
 def main():
     names=sys.argv[2:] or sorted(M)
     tier=sys.argv[1]
